@@ -16,6 +16,7 @@ typedef struct { int call, status, complete; uint64_t outh, tabh, cbh; } obs_t;
 typedef struct {
 	int kind;                 /* 0 encoder, 1 decoder */
 	cfg_t c; uint32_t n; int api, finish, cbmode; uint32_t nsub; uint32_t sub[2 * MAXN];
+	unsigned verb;            /* verbosity given to of_create_codec_instance (the library keeps it in a process global) */
 	/* runtime */
 	int pc, nsteps, configured; of_session_t *ses; uint8_t *sym[MAXN]; void *tab[MAXN]; void *stab[MAXN];
 	void *cbbuf[MAXN]; uint64_t cbacc; int cbn; int cbmode_rt;
@@ -64,6 +65,7 @@ static int gen_scripts(uint64_t caseseed, script_t *S)
 		}
 		s->n = s->c.k + s->c.r;
 		s->kind = (int)rng_below(&r, 3) == 0 ? 0 : 1;
+		s->verb = rng_below(&r, 3) == 0 ? 1 + rng_below(&r, 2) : 0;   /* what the library prints goes to /dev/null; what it computes must not change */
 		if (s->kind == 1) {
 			s->api = (int)rng_below(&r, 3) == 0; s->finish = rng_below(&r, 4) != 0; s->cbmode = rng_below(&r, 3) == 0 ? 1 + (int)rng_below(&r, 3) : 0;
 			uint32_t m2 = 0; uint32_t perm[MAXN];
@@ -106,14 +108,15 @@ static void observe(script_t *s, int call, int status, uint64_t outh)
 			void *p = s->stab[i]; char cls = !p ? 'N' : p == (void *)s->sym[i] ? 'A' : p == s->cbbuf[i] ? 'C' : 'L';
 			h = hash64(h, (uint64_t)cls); if (p) h = hash_bytes(p, s->c.L, h);
 		}
+		if (s->c.codec == 3 && s->configured) { UINT32 isnull = 7; of_status_t cs = of_get_control_parameter(s->ses, OF_CRTL_LDPC_STAIRCASE_IS_LAST_SYMBOL_NULL, &isnull, sizeof isnull); h = hash64(h, ((uint64_t)cs << 8) | isnull); }
 		o->tabh = h;
 	}
 }
 static void script_step(script_t *s)
 {
 	of_status_t st; char pb[32]; uint32_t k = s->c.k; int pc = s->pc++;
-	if (pc == 0) { st = of_create_codec_instance(&s->ses, (of_codec_id_t)s->c.codec, s->kind ? OF_DECODER : OF_ENCODER, 0); observe(s, CL_CREATE, st, 0); return; }
-	if (pc == 1) { cfg_params(&s->c, pb); st = of_set_fec_parameters(s->ses, (of_parameters_t *)pb); observe(s, CL_SETP, st, 0); if (st != OF_STATUS_OK) s->pc = s->nsteps - 1; else s->configured = 1; return; }
+	if (pc == 0) { st = of_create_codec_instance(&s->ses, (of_codec_id_t)s->c.codec, s->kind ? OF_DECODER : OF_ENCODER, s->verb); observe(s, CL_CREATE, st, 0); return; }
+	if (pc == 1) { cfg_params(&s->c, pb); st = of_set_fec_parameters(s->ses, (of_parameters_t *)pb); if (st == OF_STATUS_OK) s->configured = 1; observe(s, CL_SETP, st, 0); if (st != OF_STATUS_OK) s->pc = s->nsteps - 1; return; }
 	if (pc == s->nsteps - 1) {
 		/* decoded symbols belong to the application: collect them before release */
 		void *mine[MAXN]; int nm = 0;
@@ -124,7 +127,9 @@ static void script_step(script_t *s)
 		return;
 	}
 	if (s->kind == 0) {
-		if (pc == 2) { UINT32 v = 0; st = of_get_control_parameter(s->ses, OF_CTRL_GET_MAX_N, &v, sizeof v); observe(s, CL_CTRL, st, v); return; }
+		if (pc == 2) { UINT32 v = 0, isnull = 7; st = of_get_control_parameter(s->ses, OF_CTRL_GET_MAX_N, &v, sizeof v);
+			if (s->c.codec == 3) { of_status_t cs = of_get_control_parameter(s->ses, OF_CRTL_LDPC_STAIRCASE_IS_LAST_SYMBOL_NULL, &isnull, sizeof isnull); isnull |= (UINT32)cs << 8; }
+			observe(s, CL_CTRL, st, ((uint64_t)isnull << 32) | v); return; }
 		uint32_t esi = k + (uint32_t)(pc - 3);
 		for (uint32_t e = 0; e < s->n; e++) s->tab[e] = s->sym[e];
 		st = of_build_repair_symbol(s->ses, s->tab, esi);
